@@ -177,6 +177,56 @@ theorem newton_not_outOfTape [Add V] (cfg : Cfg) (tape : List (Iter V)) : ∀ (k
           simp only [List.length_cons] at h; omega
     · simp
 
+/-! ### the solver `_choose_solver` picked -/
+
+theorem solveStep_tss [Add V] (cfg : Cfg) (tape : List (Iter V)) (s : Sol V) : (solveStep cfg tape s).sol.tss = s.tss := by
+  unfold solveStep
+  split
+  · cases tape with
+    | nil => rfl
+    | cons it tape => simp only [linearSolve]; split <;> rfl
+  · exact newton_tss cfg tape 0 s
+
+theorem solveStep_its_length [Add V] (cfg : Cfg) (tape : List (Iter V)) (s : Sol V) (h : s.its.length = cfg.nIt) :
+    (solveStep cfg tape s).sol.its.length = cfg.nIt := by
+  unfold solveStep
+  split
+  · cases tape with
+    | nil => exact h
+    | cons it tape =>
+      simp only [linearSolve]; split
+      · exact afterIteration_its_length cfg _ s h
+      · exact h
+  · exact newton_its_length cfg tape 0 s h
+
+theorem solveStep_not_both [Add V] (cfg : Cfg) (tape : List (Iter V)) (hok : NoBoth cfg tape) (s : Sol V) :
+    (solveStep cfg tape s).fin ≠ .both := by
+  unfold solveStep
+  split
+  · cases tape with
+    | nil => simp [linearSolve]
+    | cons it tape => simp only [linearSolve]; split <;> simp
+  · exact newton_not_both cfg tape hok 0 s
+
+theorem solveStep_not_outOfTape [Add V] (cfg : Cfg) (tape : List (Iter V)) (s : Sol V) (h : cfg.maxIt < tape.length) :
+    (solveStep cfg tape s).fin ≠ .outOfTape := by
+  unfold solveStep
+  split
+  · cases tape with
+    | nil => simp at h
+    | cons it tape => simp only [linearSolve]; split <;> simp
+  · exact newton_not_outOfTape cfg tape 0 s (by omega)
+
+theorem retryOf_nonlinear (clk : Clock C) (cfg : Cfg) (c : C) (h : cfg.linear = false) : retryOf clk cfg c = clk.retry c := by
+  simp [retryOf, h]
+
+theorem retryOf_ok (clk : Clock C) (cfg : Cfg) (c c2 : C) (h : retryOf clk cfg c = .ok c2) :
+    cfg.linear = false ∧ clk.retry c = .ok c2 := by
+  unfold retryOf at h
+  split at h
+  · cases h
+  · rename_i hl; exact ⟨by simpa using hl, h⟩
+
 /-! ### one pass of the time loop: case analysis -/
 
 theorem stepRun_not_running [Add V] (clk : Clock C) (cfg : Cfg) (r : Run V C) (tape : List (Iter V))
@@ -191,7 +241,7 @@ theorem stepRun_spec [Add V] (clk : Clock C) (cfg : Cfg) (r : Run V C) (tape : L
     (h : r.status = .running) :
     let c1 := clk.advance r.clock
     let bc1 := beforeLoop cfg (clk.time c1) r.bc
-    let res := newton cfg 0 tape r.sol
+    let res := solveStep cfg tape r.sol
     let r' := stepRun clk cfg r tape
     (res.fin = .converged ∧ ∃ c2, clk.accept c1 res.k = .ok c2 ∧ r'.sol = updateSolution cfg res.sol ∧ r'.bc = bc1 ∧
         r'.clock = c2 ∧ r'.accepted = pushHead res.sol.its r.accepted ∧ r'.acceptedT = clk.time c1 :: r.acceptedT ∧
@@ -202,28 +252,28 @@ theorem stepRun_spec [Add V] (clk : Clock C) (cfg : Cfg) (r : Run V C) (tape : L
         r'.acceptedT = r.acceptedT ∧ r'.status = statusOf clk c1 ∧ r'.last = .both) ∨
     (res.fin = .outOfTape ∧ r'.status = .outOfTape ∧ r'.last = .other ∧ r'.sol = res.sol ∧ r'.accepted = r.accepted ∧
         r'.acceptedT = r.acceptedT) ∨
-    ((res.fin = .diverged ∨ res.fin = .maxIter) ∧ ∃ c2, clk.retry c1 = .ok c2 ∧ r'.sol = resetIterate res.sol ∧
+    ((res.fin = .diverged ∨ res.fin = .maxIter) ∧ ∃ c2, retryOf clk cfg c1 = .ok c2 ∧ r'.sol = resetIterate res.sol ∧
         r'.bc = bcRewind bc1 ∧ r'.clock = c2 ∧ r'.accepted = r.accepted ∧
         r'.acceptedT = r.acceptedT ∧ r'.status = statusOf clk c2 ∧ r'.last = .retried) ∨
-    ((res.fin = .diverged ∨ res.fin = .maxIter) ∧ ∃ e, clk.retry c1 = .error e ∧ r'.status = .raised e ∧
-        r'.last = .other ∧ r'.sol = res.sol ∧ r'.accepted = r.accepted ∧ r'.acceptedT = r.acceptedT) := by
+    ((res.fin = .diverged ∨ res.fin = .maxIter) ∧ ∃ e, retryOf clk cfg c1 = .error e ∧ r'.status = .raised e ∧
+        r'.last = .other ∧ r'.sol = res.sol ∧ r'.accepted = r.accepted ∧ r'.acceptedT = r.acceptedT ∧ r'.clock = c1) := by
   simp only []
   unfold stepRun
   rw [h]
   simp only []
-  cases hfin : (newton cfg 0 tape r.sol).fin with
+  cases hfin : (solveStep cfg tape r.sol).fin with
   | converged =>
-    cases hacc : clk.accept (clk.advance r.clock) (newton cfg 0 tape r.sol).k with
+    cases hacc : clk.accept (clk.advance r.clock) (solveStep cfg tape r.sol).k with
     | ok c2 => simp
     | error e => simp
   | both => simp
   | outOfTape => simp
   | diverged =>
-    cases hret : clk.retry (clk.advance r.clock) with
+    cases hret : retryOf clk cfg (clk.advance r.clock) with
     | ok c2 => simp
     | error e => simp
   | maxIter =>
-    cases hret : clk.retry (clk.advance r.clock) with
+    cases hret : retryOf clk cfg (clk.advance r.clock) with
     | ok c2 => simp
     | error e => simp
 
@@ -290,20 +340,20 @@ theorem inv_step [Add V] (clk : Clock C) (cfg : Cfg) (v0 : V) (hIt : 0 < cfg.nIt
     (r : Run V C) (tape : List (Iter V)) (hr : Inv clk cfg v0 r) : Inv clk cfg v0 (stepRun clk cfg r tape) := by
   by_cases hrun : r.status = .running
   case neg => rw [stepRun_not_running clk cfg r tape hrun]; exact hr
-  have hlen := newton_its_length cfg tape 0 r.sol hr.itsLen
-  have htss := newton_tss cfg tape 0 r.sol
+  have hlen := solveStep_its_length cfg tape r.sol hr.itsLen
+  have htss := solveStep_tss cfg tape r.sol
   have hspec := stepRun_spec clk cfg r tape hrun
   simp only [] at hspec
   rcases hspec with ⟨_, c2, _, hsol, _, hclk, hacc, _, hst, hlast⟩ | ⟨_, e, _, hst, hlast, hsol, hacc, _⟩ |
       ⟨_, hsol, _, hclk, hacc, _, hst, hlast⟩ | ⟨_, hst, hlast, hsol, hacc, _⟩ |
       ⟨_, c2, _, hsol, _, hclk, hacc, _, hst, hlast⟩ | ⟨_, e, _, hst, hlast, hsol, hacc, _⟩
   · -- accepted
-    obtain ⟨v, rest, hv⟩ : ∃ v rest, (newton cfg 0 tape r.sol).sol.its = v :: rest := by
-      cases h : (newton cfg 0 tape r.sol).sol.its with
+    obtain ⟨v, rest, hv⟩ : ∃ v rest, (solveStep cfg tape r.sol).sol.its = v :: rest := by
+      cases h : (solveStep cfg tape r.sol).sol.its with
       | nil => rw [h] at hlen; simp at hlen; omega
       | cons v rest => exact ⟨v, rest, rfl⟩
     rw [updateSolution_eq cfg _ v rest hv] at hsol
-    have hpush : set0 v (shiftMax cfg.nTs (newton cfg 0 tape r.sol).sol.tss) = window cfg.nTs (v :: r.accepted) v0 := by
+    have hpush : set0 v (shiftMax cfg.nTs (solveStep cfg tape r.sol).sol.tss) = window cfg.nTs (v :: r.accepted) v0 := by
       rw [htss, hr.hist, push_eq cfg.nTs v _ hTs (by rw [window_length]; omega), window_push cfg.nTs v v0 _ hTs]
     refine ⟨?_, ?_, ?_, ?_, ?_, ?_⟩
     · rw [hsol]; exact hlen
@@ -342,13 +392,13 @@ theorem inv_step [Add V] (clk : Clock C) (cfg : Cfg) (v0 : V) (hIt : 0 < cfg.nIt
     · intro h; rw [hst] at h; cases h
     · intro h; rw [hst] at h; cases h
   · -- rejected, to be recomputed
-    have hw : (newton cfg 0 tape r.sol).sol.tss = window cfg.nTs r.accepted v0 := by rw [htss]; exact hr.hist
-    obtain ⟨w, rest, hwr⟩ : ∃ w rest, (newton cfg 0 tape r.sol).sol.tss = w :: rest := by
-      cases h : (newton cfg 0 tape r.sol).sol.tss with
+    have hw : (solveStep cfg tape r.sol).sol.tss = window cfg.nTs r.accepted v0 := by rw [htss]; exact hr.hist
+    obtain ⟨w, rest, hwr⟩ : ∃ w rest, (solveStep cfg tape r.sol).sol.tss = w :: rest := by
+      cases h : (solveStep cfg tape r.sol).sol.tss with
       | nil => have := window_length cfg.nTs r.accepted v0; rw [← hw, h] at this; simp at this; omega
       | cons w rest => exact ⟨w, rest, rfl⟩
     rw [resetIterate_eq _ w rest hwr] at hsol
-    have hne : (newton cfg 0 tape r.sol).sol.its ≠ [] := by
+    have hne : (solveStep cfg tape r.sol).sol.its ≠ [] := by
       intro h; rw [h] at hlen; simp at hlen; omega
     refine ⟨?_, ?_, by rw [hacc]; exact hr.accNe, ?_, ?_, ?_⟩
     · rw [hsol]; simp only []; rw [set0_length _ _ hne]; exact hlen
@@ -389,7 +439,7 @@ theorem last_ne_both [Add V] (clk : Clock C) (cfg : Cfg) (tapes : List (List (It
     case neg => rw [stepRun_not_running clk cfg r t hrun]; exact h
     have hspec := stepRun_spec clk cfg r t hrun
     simp only [] at hspec
-    have hnb := newton_not_both cfg t (hok t List.mem_cons_self) 0 r.sol
+    have hnb := solveStep_not_both cfg t (hok t List.mem_cons_self) r.sol
     rcases hspec with ⟨_, _, _, _, _, _, _, _, _, hl⟩ | ⟨_, _, _, _, hl, _⟩ | ⟨hb, _⟩ | ⟨_, _, hl, _⟩ |
         ⟨_, _, _, _, _, _, _, _, _, hl⟩ | ⟨_, _, _, _, hl, _⟩
     · rw [hl]; simp
@@ -429,9 +479,9 @@ theorem runAll_ends [Add V] (clk : Clock C) (cfg : Cfg) (inv : C → Prop) (μ :
     have hinv0 := hinv (Or.inl hr)
     have hspec := stepRun_spec clk cfg r t hr
     simp only [] at hspec
-    have hnb := newton_not_both cfg t (hok t List.mem_cons_self).1 0 r.sol
-    have hno := newton_not_outOfTape cfg t 0 r.sol (by have := (hok t List.mem_cons_self).2; omega)
-    obtain ⟨ca, hacc, hinva, hμa⟩ := hT.accept r.clock (newton cfg 0 t r.sol).k hinv0 hfin
+    have hnb := solveStep_not_both cfg t (hok t List.mem_cons_self).1 r.sol
+    have hno := solveStep_not_outOfTape cfg t r.sol (hok t List.mem_cons_self).2
+    obtain ⟨ca, hacc, hinva, hμa⟩ := hT.accept r.clock (solveStep cfg t r.sol).k hinv0 hfin
     simp only [List.length_cons] at hμ
     rcases hspec with ⟨_, c2, hc2, _, _, hclk, _, _, hst, _⟩ | ⟨_, e, he, _⟩ | ⟨hb, _⟩ | ⟨ho, _⟩ |
         ⟨_, c2, hc2, _, _, hclk, _, _, hst, _⟩ | ⟨_, e, _, hst, _⟩
@@ -448,7 +498,7 @@ theorem runAll_ends [Add V] (clk : Clock C) (cfg : Cfg) (inv : C → Prop) (μ :
     · rw [hacc] at he; cases he
     · exact absurd hb hnb
     · exact absurd ho hno
-    · obtain ⟨hinvr, hμr⟩ := hT.retry r.clock c2 hinv0 hfin hc2
+    · obtain ⟨hinvr, hμr⟩ := hT.retry r.clock c2 hinv0 hfin (retryOf_ok clk cfg _ c2 hc2).2
       apply ih hok'
       · rw [hst]; rcases statusOf_cases clk c2 with ⟨h, _⟩ | ⟨h, _⟩ <;> simp [h]
       · intro _; rw [hclk]; exact hinvr
@@ -596,7 +646,7 @@ theorem bcinv_step [Add V] (clk : Clock C) (cfg : Cfg) (t0 : Rat) (hTs : 0 < cfg
   have hbl := beforeLoop_spec cfg (clk.time (clk.advance r.clock)) t0 r.bc r.acceptedT hTs h1 h2 h3
   have hspec := stepRun_spec clk cfg r tape hrun
   simp only [] at hspec
-  have hnb := newton_not_both cfg tape hok 0 r.sol
+  have hnb := solveStep_not_both cfg tape hok r.sol
   obtain ⟨n, hn⟩ : ∃ n, cfg.nTs = n + 1 := ⟨cfg.nTs - 1, by omega⟩
   obtain ⟨h, tl, hacc⟩ : ∃ h tl, r.acceptedT = h :: tl := by
     cases hh : r.acceptedT with
@@ -713,7 +763,7 @@ theorem sim_of_status (p : C09.Params) (r : Run V C09.TM) (r9 : C09.Run) (c : C0
   · exact Or.inr (Or.inl ⟨by rw [h1, a], by rw [h2, b], by rw [h3, h4], h5⟩)
 
 theorem sim_step [Add V] (p : C09.Params) (cfg : Cfg) (r : Run V C09.TM) (r9 : C09.Run) (tape : List (Iter V))
-    (hok : NoBoth cfg tape) (hlen : cfg.maxIt < tape.length) (h : Sim r r9) :
+    (hok : NoBoth cfg tape) (hlen : cfg.maxIt < tape.length) (hlin : cfg.linear = false) (h : Sim r r9) :
     ∃ o, Sim (stepRun (tmClock p) cfg r tape) (C09.stepRun p r9 o) := by
   by_cases hrun : r.status = .running
   case neg =>
@@ -735,8 +785,8 @@ theorem sim_step [Add V] (p : C09.Params) (cfg : Cfg) (r : Run V C09.TM) (r9 : C
     all_goals (rw [hrun] at a; cases a)
   have hspec := stepRun_spec (tmClock p) cfg r tape hrun
   simp only [] at hspec
-  have hnb := newton_not_both cfg tape hok 0 r.sol
-  have hno := newton_not_outOfTape cfg tape 0 r.sol (by omega)
+  have hnb := solveStep_not_both cfg tape hok r.sol
+  have hno := solveStep_not_outOfTape cfg tape r.sol hlen
   have hadv : (tmClock p).advance r.clock = C09.increaseTimeIndex (C09.increaseTime r9.tm) := by rw [hclk]; rfl
   have htime : (tmClock p).time ((tmClock p).advance r.clock) = (C09.increaseTimeIndex (C09.increaseTime r9.tm)).time := by
     rw [hadv]; rfl
@@ -744,7 +794,7 @@ theorem sim_step [Add V] (p : C09.Params) (cfg : Cfg) (r : Run V C09.TM) (r9 : C
   rcases hspec with ⟨_, c2, hc2, _, _, hclk', _, haccT, hst, _⟩ | ⟨_, e, he, hst, _⟩ | ⟨hb, _⟩ | ⟨ho, _⟩ |
       ⟨_, c2, hc2, _, _, hclk', _, haccT, hst, _⟩ | ⟨_, e, he, hst, _⟩
   · -- accepted
-    refine ⟨.converged ((newton cfg 0 tape r.sol).k : Int), ?_⟩
+    refine ⟨.converged ((solveStep cfg tape r.sol).k : Int), ?_⟩
     simp only [tmClock] at hc2
     unfold C09.stepRun
     rw [h9]; simp only []
@@ -762,7 +812,7 @@ theorem sim_step [Add V] (p : C09.Params) (cfg : Cfg) (r : Run V C09.TM) (r9 : C
         exact sim_of_status p _ _ _ hst rfl hclk' rfl (by rw [haccT, hacc9]; rfl)
       · cases hc2
   · -- the accept hook raised
-    refine ⟨.converged ((newton cfg 0 tape r.sol).k : Int), ?_⟩
+    refine ⟨.converged ((solveStep cfg tape r.sol).k : Int), ?_⟩
     simp only [tmClock] at he
     unfold C09.stepRun
     rw [h9]; simp only []
@@ -779,6 +829,7 @@ theorem sim_step [Add V] (p : C09.Params) (cfg : Cfg) (r : Run V C09.TM) (r9 : C
   · exact absurd ho hno
   · -- rejected, recomputed
     refine ⟨.failed, ?_⟩
+    rw [retryOf_nonlinear _ cfg _ hlin] at hc2
     simp only [tmClock] at hc2
     unfold C09.stepRun
     rw [h9]; simp only []
@@ -794,6 +845,7 @@ theorem sim_step [Add V] (p : C09.Params) (cfg : Cfg) (r : Run V C09.TM) (r9 : C
       · cases hc2
   · -- rejected, raised
     refine ⟨.failed, ?_⟩
+    rw [retryOf_nonlinear _ cfg _ hlin] at he
     simp only [tmClock] at he
     unfold C09.stepRun
     rw [h9]; simp only []
@@ -810,14 +862,14 @@ theorem sim_step [Add V] (p : C09.Params) (cfg : Cfg) (r : Run V C09.TM) (r9 : C
         exact Or.inr (Or.inr (Or.inl ⟨e, e', hst, rfl⟩))
 
 theorem sim_runAll [Add V] (p : C09.Params) (cfg : Cfg) (tapes : List (List (Iter V)))
-    (hok : ∀ t ∈ tapes, NoBoth cfg t ∧ cfg.maxIt < t.length) :
+    (hok : ∀ t ∈ tapes, NoBoth cfg t ∧ cfg.maxIt < t.length) (hlin : cfg.linear = false) :
     ∀ (r : Run V C09.TM) (r9 : C09.Run), Sim r r9 →
       ∃ os : List C09.Outcome, os.length = tapes.length ∧ Sim (runAll (tmClock p) cfg r tapes) (C09.runFrom p r9 os) := by
   induction tapes with
   | nil => intro r r9 h; exact ⟨[], rfl, h⟩
   | cons t ts ih =>
     intro r r9 h
-    obtain ⟨o, ho⟩ := sim_step p cfg r r9 t (hok t List.mem_cons_self).1 (hok t List.mem_cons_self).2 h
+    obtain ⟨o, ho⟩ := sim_step p cfg r r9 t (hok t List.mem_cons_self).1 (hok t List.mem_cons_self).2 hlin h
     obtain ⟨os, hl, hs⟩ := ih (fun x hx => hok x (List.mem_cons_of_mem _ hx)) _ _ ho
     exact ⟨o :: os, by simp [hl], by rw [runAll_cons]; exact hs⟩
 
